@@ -608,7 +608,8 @@ package spine
 //@ func (*FeatureLocal).ApproveOrDenyWrite
 //@   requires r != nil && r.Feature != nil && r.address != nil && msg != nil && msg.RequestHeader != nil && msg.RequestHeader.MsgCounter != nil && msg.RequestHeader.AddressDestination != nil && msg.FeatureRemote != nil
 //@   requires WINV(r)
-//@   ensures[C12] inv-kept: WINV(r)
+//@   ensures[C12] inv-kept-p: forall a string, b string :: has(r.pendingWriteApprovals, a) && has(r.pendingWriteApprovals, b) && a != b ==> r.pendingWriteApprovals[a] != r.pendingWriteApprovals[b]
+//@   ensures[C12] inv-kept-t: forall a string, b string :: has(r.writeApprovalReceived, a) && has(r.writeApprovalReceived, b) && a != b ==> r.writeApprovalReceived[a] != r.writeApprovalReceived[b]
 //@   let SKI = msg.DeviceRemote.Ski()
 //@   let MC = *msg.RequestHeader.MsgCounter
 //@   let N = len(r.writeApprovalCallbacks)
@@ -618,7 +619,8 @@ package spine
 //@   define DENY = err.ErrorNumber != 0
 //@   define LAST = N <= 1 || TALLY(r, SKI, MC) + 1 >= N
 //@   ensures[C12] ignored: !old(ACTIVE) ==> respSame && sendfails == old(sendfails) && wapplied == old(wapplied) && forall s string, m model.MsgCounterType :: (PEND(r, s, m) <==> old(PEND(r, s, m))) && TALLY(r, s, m) == old(TALLY(r, s, m))
-//@   ensures[C12] others-untouched: forall s string, m model.MsgCounterType :: !(s == SKI && m == MC) ==> (PEND(r, s, m) <==> old(PEND(r, s, m))) && TALLY(r, s, m) == old(TALLY(r, s, m))
+//@   ensures[C12] others-pending: forall s string, m model.MsgCounterType :: !(s == SKI && m == MC) ==> (PEND(r, s, m) <==> old(PEND(r, s, m)))
+//@   ensures[C12] others-tally: forall s string, m model.MsgCounterType :: !(s == SKI && m == MC) ==> TALLY(r, s, m) == old(TALLY(r, s, m))
 //@   ensures[C12] denied: old(ACTIVE && DENY) ==> !PEND(r, SKI, MC) && TALLY(r, SKI, MC) == 0 && wapplied == old(wapplied) && (sendfails == old(sendfails) ==> respAppended(S, K) && rcls[S][K] == model.CmdClassifierTypeResult && answers(S, K, msg.RequestHeader, r.address) && rerr[S][K] == old(err.ErrorNumber))
 //@   ensures[C12] approved-last: old(ACTIVE && !DENY && LAST) ==> !PEND(r, SKI, MC) && TALLY(r, SKI, MC) == 0 && wapplied == old(wapplied) + 1 && wmsg[old(wapplied)] == msg
 //@   ensures[C12] approved-partial: old(ACTIVE && !DENY && !LAST) ==> PEND(r, SKI, MC) && TALLY(r, SKI, MC) == old(TALLY(r, SKI, MC)) + 1 && respSame && sendfails == old(sendfails) && wapplied == old(wapplied)
